@@ -156,7 +156,9 @@ class ShuffleBase(Expr):
     @functools.cached_property
     def _meta(self):
         meta = self.frame._meta
-        if self.ignore_index and self.method == "tasks":
+        method = self.method or get_default_shuffle_method()
+        if self.ignore_index and method in ("tasks", "simple"):
+            # the disk and p2p shuffles keep the index
             meta = meta.reset_index(drop=True)
         return meta
 
@@ -334,7 +336,10 @@ class SimpleShuffle(PartitionsFiltered, Shuffle):
 
     @functools.cached_property
     def _meta(self):
-        return self.frame._meta
+        meta = self.frame._meta
+        if self.ignore_index:
+            meta = meta.reset_index(drop=True)
+        return meta
 
     @staticmethod
     def _shuffle_group(df, _filter, *args):
@@ -388,13 +393,6 @@ class SimpleShuffle(PartitionsFiltered, Shuffle):
 
 class TaskShuffle(SimpleShuffle):
     """Staged task-based shuffle implementation"""
-
-    @functools.cached_property
-    def _meta(self):
-        meta = self.frame._meta
-        if self.ignore_index:
-            meta = meta.reset_index(drop=True)
-        return meta
 
     def _layer(self):
         max_branch = (self.options or {}).get("max_branch", None) or 32
@@ -530,6 +528,11 @@ class DiskShuffle(SimpleShuffle):
     # input partition so that ``_collect`` can restore the input order (which
     # the task-based shuffle preserves and order-dependent reductions need).
     _order_column = "__disk_shuffle_input_partition__"
+
+    @functools.cached_property
+    def _meta(self):
+        # ignore_index is not used, the index is kept
+        return self.frame._meta
 
     @staticmethod
     def _shuffle_group(df, col, _filter, p, i):
